@@ -85,6 +85,10 @@ class s_int(metaclass=_IntMeta):
             return SInt.lift(x)
         if isinstance(x, SInt):
             return x
+        if type(x).__name__ == "SDyadic":
+            return x.trunc()
+        if isinstance(x, SNeg):
+            return x
         return builtins.int(x)
 
     from_bytes = staticmethod(s_int_from_bytes)
